@@ -887,6 +887,35 @@ def run_functions(ctx):
         c = send(ds, transport, ctx)
         if c != ds or c.variable_names != ds.variable_names or not np.array_equal(c.get_lower_bounds(), ds.get_lower_bounds()):
             ctx.violate("C20.behaves_like_original", "design_space", "restored design space differs")
+
+        def ds_view(space, bounded):
+            """Settings and behaviour a user can read: flags, normalisation before and after a bound change, a DOE."""
+            from gemseo.algos.doe.factory import DOELibraryFactory
+
+            v = {"integer_normalization": bool(space.enable_integer_variables_normalization),
+                 "policies": canon({n: list(map(bool, space.normalize[n])) for n in space.variable_names})}
+            pt = array([0.5, 1.0, 2.0, 0.0])
+            v["normalized"] = canon(space.normalize_vect(pt))
+            v["grad"] = canon(space.normalize_grad(pt))
+            if bounded:
+                try:
+                    v["doe"] = canon(DOELibraryFactory().create("PYDOE_FULLFACT").compute_doe(space, n_samples=8))
+                except Exception as exc:  # noqa: BLE001
+                    v["doe"] = f"{type(exc).__name__}: {exc}"[:120]
+            return v
+
+        bounded = t.flag(0.5, "all_variables_bounded")
+        pair = (ds, c)
+        if bounded:
+            # a fully bounded copy of both spaces (what a DOE needs); the bound change also re-computes the policies
+            for space in pair:
+                space.set_lower_bound("x", array([-1.0, -4.0]))
+                space.set_lower_bound("y", array([-1.0]))
+                space.set_upper_bound("y", array([1.0]))
+        v0, v1 = ds_view(ds, bounded), ds_view(c, bounded)
+        if v0 != v1:
+            diff = [k_ for k_ in v0 if v0[k_] != v1[k_]]
+            ctx.violate("C20.behaves_like_original", "design_space settings", f"original and restored design spaces differ in {diff}: " + "; ".join(f"{k_}: {v0[k_]} -> {v1[k_]}" for k_ in diff[:3]))
         c.set_current_value({"x": array([0.0, 0.0]), "long_name": array([1]), "y": array([0.0])})
         if np.array_equal(ds.get_current_value(["x"]), array([0.0, 0.0])):
             ctx.violate("C20.isolation", "design_space", "editing the restored design space changed the original")
